@@ -120,7 +120,12 @@ def run_case(g, H):
         before = project(dest)
         how = g.get("how", "tag")
         obj = {"tag": lambda: H.tags.div("x", *deps), "list": lambda: H.TagList("x", *deps),
-               "doc": lambda: H.HTMLDocument(H.tags.p("y"), *deps)}[how]()
+               "doc": lambda: H.HTMLDocument(H.tags.p("y"), *deps),
+               # the caller's own <html> / <body> element as the sole content
+               "html": lambda: H.tags.html(H.tags.head(H.tags.title("t")), H.tags.body("x", *deps)),
+               "list_html": lambda: H.TagList(H.tags.html(H.tags.body(H.tags.div(*deps)))),
+               "doc_html": lambda: H.HTMLDocument(H.tags.html(H.tags.body("x"), *deps), lang="en"),
+               "body": lambda: H.tags.body("x", *deps)}[how]()
         raised, ret = False, None
         try:
             ret = obj.save_html(htmlfile, libdir=libdir, include_version=g["inclver"])
@@ -131,8 +136,10 @@ def run_case(g, H):
         if written:
             text = open(htmlfile).read()
             evs = tokenize(text)
-            urls_l = [bytes(a["v"]).decode("latin-1") if False else a["v"] for e in evs if e["e"] in ("start", "self") and e["name"] == "link" for a in e["attrs"] if a["n"] == "href"]
-            urls_s = [a["v"] for e in evs if e["e"] in ("start", "self") and e["name"] == "script" for a in e["attrs"] if a["n"] == "src"]
+            # URLs as the bytes the file stores (UTF-8), comparable with the bytes of names and paths
+            u8 = lambda v: list("".join(map(chr, v)).encode("utf-8", "surrogatepass"))
+            urls_l = [u8(a["v"]) for e in evs if e["e"] in ("start", "self") and e["name"] == "link" for a in e["attrs"] if a["n"] == "href"]
+            urls_s = [u8(a["v"]) for e in evs if e["e"] in ("start", "self") and e["name"] == "script" for a in e["attrs"] if a["n"] == "src"]
             li = si = 0
             for r in recs:
                 nl = r["nlinks"]
@@ -162,7 +169,7 @@ class C12(Prop):
     rule = ("save_html on real directories: every case of the model (6 listings of 3 hostile-named candidate files x every "
             "subset of them present x all_files x include_version x stale target content x source kind) and seeded random "
             "cases (1-3 dependencies, 1-6 files each, names with spaces, %, #, ?, quotes, non-ASCII, nested directories; "
-            "package sources; libdir None/lib/a/b; called on a tag, a list and a document).  Non-trivial: a file is copied "
+            "package sources; dependency names with spaces, @, + and non-ASCII; libdir None/lib/a/b; called on a tag, a list, a document and on content whose sole root is the caller's own html or body element).  Non-trivial: a file is copied "
             "or a listed file is missing.")
     assumptions = [
         "file contents are compared by sha256; paths are the bytes the OS stores",
@@ -188,7 +195,7 @@ class C12(Prop):
             links = [f for f in files if f.endswith(".css")]
             scripts = [f for f in files if not f.endswith(".css")]
             gens.append({"kind": "case", "seed": i, "libdir": "out/lib" if i % 3 else ["lib", None][i % 2], "inclver": c["inclver"],
-                         "how": ["tag", "list", "doc"][i % 3],
+                         "how": ["tag", "list", "doc", "html", "doc_html", "body", "list_html"][i % 7],
                          "deps": [{"name": "n", "version": "1.0", "src": src, "href": "h://u", "links": links, "scripts": scripts,
                                    "present": present, "allfiles": c["allfiles"], "stale": c["stale"]}]})
         return gens
@@ -204,13 +211,13 @@ class C12(Prop):
                 if rnd.random() < 0.7:
                     present = list(set(present) | set(files))
                 listed = [f for f in files if rnd.random() < 0.8]
-                deps.append({"name": f"dep{di}.x", "version": rnd.choice(["1.0", "0.0.1", "2.10"]), "src": src,
+                deps.append({"name": rnd.choice([f"dep{di}.x", f"dep{di}.x", f"my widgets {di}", f"@acme.w{di}", f"d{di}+é~"]), "version": rnd.choice(["1.0", "0.0.1", "2.10"]), "src": src,
                              "href": rnd.choice(["https://cdn.example/lib", "https://cdn.example/lib/"]),
                              "links": [f for f in listed if f.endswith(".css")], "scripts": [f for f in listed if not f.endswith(".css")],
                              "present": present, "allfiles": rnd.random() < 0.3, "stale": rnd.choice(["none", "file", "other"])})
             gens.append({"kind": "case", "seed": n, "twice": rnd.random() < 0.3,
                          "libdir": rnd.choice(["lib", None, "a/b", "my lib"]), "inclver": rnd.random() < 0.5,
-                         "how": rnd.choice(["tag", "list", "doc"]), "file": rnd.choice(["page.html", "sub dir/index.html"]) if False else "page.html",
+                         "how": rnd.choice(["tag", "list", "doc", "html", "doc_html", "body", "list_html"]), "file": rnd.choice(["page.html", "sub dir/index.html"]) if False else "page.html",
                          "deps": deps})
         return gens
 
